@@ -52,6 +52,10 @@ def extended_class(cls, variant=0):
         def bare_prop(self) -> int:
             return 3
 
+        def make_report(self, depth: int = 1) -> "Report":  # noqa: F821 (a forward reference only type checkers resolve)
+            """Returns something whose type only the type checker knows."""
+            return depth
+
         def set_QoS(self, level: int = 0) -> int:
             """A public method whose name has upper-case letters."""
             return level
